@@ -15,6 +15,10 @@ R-HDRGEN   tools_utils::handle_file_entry: the suppression it creates carries th
            (the label is_private_type_suppr_spec tests), is artificial, and on every path the file is inserted into
            get_source_locations_to_keep(); handle_fts_entry reaches it for regular files / symlinks named *.h, *.hpp,
            *.hxx and for nothing else.
+R-REDUNDSKIP the redundancy pass (redundancy_marking_visitor::visit_begin) does not look below a node that is not to be
+           reported (filtered out - private or suppressed - or without change): in both such worlds the
+           SKIP_CHILDREN visiting kind is set on every path.  Otherwise a public type first met under a private one is
+           registered as visited and its next, public, occurrence is filtered as redundant: a public change vanishes.
 R-HDRWIRE  abidiff: inside each block guarded by the headers options of one binary, every `opts.<member><N>` carries the
            same index N (headers of the first binary are never applied to the second, and vice versa).
 """
@@ -36,7 +40,8 @@ def run(ctx):
     ctx.clause = ("given where a type is defined, the private-type suppression generated from the public headers never "
                   "matches a type located in a header to keep, always matches one located elsewhere, is consulted by every "
                   "matcher (diff time and load time alike), lists every header found, and is wired to the right binary")
-    ctx.rules = ["R-HDRLOC", "R-HDRGATE", "R-HDRGEN", "R-HDRWIRE"]
+    ctx.rules = ["R-HDRLOC", "R-HDRGATE", "R-HDRGEN", "R-HDRWIRE", "R-REDUNDSKIP"]
+    check_redundskip(ctx)
     P = ctx.program(UNITS)
     check_loc(ctx, P)
     check_gate(ctx, P)
@@ -319,3 +324,43 @@ def check_wire(ctx, P):
                    "the block mixes %s: the public headers of one binary decide which types of the other are private" % sorted(
                        "%s%s" % p for p in set(mem_c + mem_b)))
     ctx.floor("R-HDRWIRE", "blocks guarded by the headers options", n, 4)
+
+
+
+# ------------------------------------------------------------------------------------------------ R-REDUNDSKIP
+def check_redundskip(ctx, rule="R-REDUNDSKIP"):
+    P = ctx.program(["src/abg-comparison.cc"])
+    fs = [f for f in P.all_funcs() if f.n == "visit_begin" and "redundancy_marking_visitor" in f.q and not f.dep and f.cfg() is not None and
+          f.r["params"] and (f.unit.type((f.unit.decl(f.r["params"][0]) or {}).get("t")) or {}).get("s", "").replace("abigail::comparison::", "") in ("diff *", "class diff *")]
+    if len(fs) != 1:
+        fs = [f for f in P.all_funcs() if f.n == "visit_begin" and "redundancy_marking_visitor" in f.q and not f.dep and f.cfg() is not None and
+              any(x["k"] == "CXXMemberCallExpr" and (f.decl(x) or {}).get("n") in ("to_be_reported", "is_filtered_out") for x in f.nodes())]
+    if len(fs) != 1:
+        raise AnalysisBroken("anchor vanished: redundancy_marking_visitor::visit_begin(diff*)")
+    f = fs[0]
+    ctx.analysed(f)
+
+    def is_skip(e):
+        return e["k"] == "CXXMemberCallExpr" and (f.decl(e) or {}).get("n") == "set_visiting_kind" and \
+            any(y["k"] == "DeclRefExpr" and (f.decl(y) or {}).get("n") == "SKIP_CHILDREN_VISITING_KIND" for y in walk(e))
+    if not any(is_skip(x) for x in f.nodes()):
+        raise AnalysisBroken("anchor vanished: redundancy_marking_visitor no longer sets SKIP_CHILDREN_VISITING_KIND")
+    d = f.r["params"][0]
+    for what, has_changes, filtered in (("a node without change", False, ANY), ("a filtered-out node (private, suppressed, harmless ...)", True, True)):
+        def atom(e):
+            if e["k"] == "CXXMemberCallExpr":
+                o = strip_casts(member_call_object(e))
+                if o is not None and o["k"] == "DeclRefExpr" and o.get("d") == d:
+                    nm = (f.decl(e) or {}).get("n")
+                    if nm == "to_be_reported":
+                        return [False]
+                    if nm == "has_changes":
+                        return [has_changes]
+                    if nm == "is_filtered_out":
+                        return [filtered]
+            return None
+        ok = World(f, atom).must_pass(is_skip)
+        ctx.ob(rule, "the redundancy pass does not look below %s" % what, ok, f.loc(),
+               "SKIP_CHILDREN is set on every path" if ok else
+               "a path leaves visit_begin without SKIP_CHILDREN: the children of a node that is never reported are registered as "
+               "visited, and the next - reportable - occurrence of such a child is filtered out as redundant")
